@@ -40,6 +40,14 @@ func retryOverRealHTTP(x *mon.Ctx) {
 		{script: []string{"502", "500", "429:1"}, cap: 300 * time.Millisecond, timeout: 10 * time.Second},
 		{script: []string{"503:"}, cap: 400 * time.Millisecond, timeout: 10 * time.Second},
 		{script: []string{"429:0", "429:0"}, cap: 200 * time.Millisecond, timeout: 10 * time.Second},
+		// the suggestion as an HTTP date (an hour ahead, seventy years ahead): the cap is the cap
+		{script: []string{"429:" + time.Now().Add(time.Hour).UTC().Format("Mon, 02 Jan 2006 15:04:05 GMT")}, cap: 300 * time.Millisecond, timeout: 10 * time.Second},
+		{script: []string{"503:Wed, 21 Oct 2099 07:28:00 GMT", "503:Wed, 21 Oct 2099 07:28:00 GMT"}, cap: 250 * time.Millisecond, timeout: 10 * time.Second},
+		// a first attempt that succeeds is returned whatever the retry budget: zero, negative, a nanosecond
+		{script: nil, cap: time.Second, timeout: 0},
+		{script: nil, cap: 0, timeout: 0},
+		{script: nil, cap: time.Second, timeout: -time.Minute},
+		{script: nil, cap: 50 * time.Millisecond, timeout: time.Nanosecond},
 	} {
 		for _, mode := range []string{"content-length", "chunked"} {
 			sc.mode, sc.url = mode, fmt.Sprintf("%s?scenario=%d", base, len(scens))
@@ -100,7 +108,7 @@ func retryOverRealHTTP(x *mon.Ctx) {
 	n := 0
 	for i, sc := range scens {
 		r := results[i]
-		param := fmt.Sprintf("script=%v cap=%v %s", sc.script, sc.cap, sc.mode)
+		param := fmt.Sprintf("script=%v cap=%v timeout=%v %s", sc.script, sc.cap, sc.timeout, sc.mode)
 		at := pcs.Times(sc.url)
 		prob := ""
 		switch {
